@@ -6,6 +6,7 @@ require (
 	github.com/goccy/go-yaml v1.13.3
 	github.com/mikefarah/yq/v4 v4.0.0
 	gopkg.in/op/go-logging.v1 v1.0.0-20160211212156-b2cb9fa56473
+	gopkg.in/yaml.v3 v3.0.1
 )
 
 require (
@@ -24,7 +25,6 @@ require (
 	golang.org/x/net v0.34.0 // indirect
 	golang.org/x/sys v0.29.0 // indirect
 	golang.org/x/text v0.23.0 // indirect
-	gopkg.in/yaml.v3 v3.0.1 // indirect
 )
 
 replace github.com/mikefarah/yq/v4 => /repo
